@@ -55,6 +55,9 @@ def run(ctx, rep):
     r28(ctx, rep)
     from . import c10
     c10.run(ctx, rep, r1="R2.9", only_transform=True)
+    rep.rule("R2.10", "objective / constraint values reach the violation and merit computations through the right parameters (no swapped or duplicated value arguments)")
+    if common.check_swapped_args(ctx, rep, "R2.10", lambda g: g.cls is not None and g.cls.name in ("Problem", "NonlinearConstraints", "LinearConstraints", "BoundConstraints", "TrustRegion")) < 10:
+        raise AnalysisError("call sites of the violation / merit computations not found")
 
 
 # ---------------------------------------------------------------------------
